@@ -51,6 +51,7 @@ __all__ = [
     'EncodingInfo',
 ]
 
+import email.utils
 import html.parser
 import io
 import re
@@ -313,6 +314,9 @@ def getMetaInfo(text, log=None):
 
         media_type = m.get_content_type()
         encoding = m.get_param('charset')  # defaults to None
+        if isinstance(encoding, tuple):
+            # RFC 2231 extended parameter: charset*=utf-8''name
+            encoding = email.utils.collapse_rfc2231_value(encoding)
         if encoding:
             encoding = encoding.lower()
         if log:
